@@ -16,6 +16,7 @@
  * Includes
  **************************************/
 
+#include "EbVerifHooks.h"
 #include "EbDefinitions.h"
 
 #include "EbSvtAv1Dec.h"
@@ -122,6 +123,7 @@ EbErrorType decode_tile_row(DecModCtxt *dec_mod_ctxt, TilesInfo *tile_info,
 
     DecMtFrameData *mt_frame_data = &frame_buf->dec_mt_frame_data;
     int             index         = mi_row / dec_mod_ctxt->seq_header->sb_mi_size;
+    SVT_VERIF_EV("dec", dec_mod_ctxt->dec_handle_ptr, "RcDone", index, tile_col);
     mt_frame_data->sb_recon_row_map[(index * tile_info->tile_cols) + tile_col] = 1;
     return status;
 }
